@@ -19,6 +19,8 @@ merged onto one child statistic), drop (statistics identically zero on a child a
 from collections import Counter, defaultdict
 from itertools import product
 
+import random as _random  # replaced by the enumerating source in C08
+
 import sympy
 
 from comb_spec_searcher import (
@@ -470,7 +472,7 @@ class SepUnion(_ModeMixin, DisjointUnionStrategy):
     def _kids(self, c):
         sep = c.alphabet[-1]
         rest = c.alphabet[:-1]
-        m = "rename" if "rename" in self.mode else ""
+        m = " ".join(w for w in ("merge", "rename") if w in self.mode)
         # the first child has no sep: a statistic counting sep is identically zero there and is dropped
         keep = [(n, l, f) for n, l, f in c.params if l != sep]
         tmp = PW("", c.patterns, c.alphabet, False, keep)
@@ -497,7 +499,7 @@ class SepSplit(_ModeMixin, CartesianProductStrategy):
     """(words with at least one sep) = Av_A(P) x sep x Av_{A+sep}(P): split at the first sep"""
 
     def _kids(self, c):
-        m = "rename" if "rename" in self.mode else ""
+        m = " ".join(w for w in ("merge", "rename") if w in self.mode)
         full = c.alphabet + (c.sep,)
         base = PW("", c.patterns, full, False, c.params)
         keep = [(n, l, f) for n, l, f in c.params if l != c.sep]
@@ -590,6 +592,9 @@ class PrefVer(VerificationStrategy):
     def get_terms(self, c, n):
         return true_terms(c, n)
 
+    def random_sample_object_of_size(self, c, n, **parameters):
+        return _random.choice(sorted(c.objects_of_size(n, **parameters)))
+
     def get_objects(self, c, n):
         return true_objects(c, n)
 
@@ -629,6 +634,9 @@ class Known(VerificationStrategy):
 
     def get_terms(self, c, n):
         return true_terms(c, n)
+
+    def random_sample_object_of_size(self, c, n, **parameters):
+        return _random.choice(sorted(c.objects_of_size(n, **parameters)))
 
     def get_objects(self, c, n):
         return true_objects(c, n)
